@@ -147,11 +147,12 @@ fn small_alphabet(ty: &Ty) -> bool {
 		Ty::Bool | Ty::OptionBool | Ty::Compact(_) | Ty::Enum { .. } | Ty::NzU(8) | Ty::NzI(8) | Ty::NzU(16) => true,
 		Ty::Option(t) => small_alphabet(t) || matches!(**t, Ty::U(8) | Ty::Unit),
 		Ty::Result(a, b) => (small_alphabet(a) || matches!(**a, Ty::U(8) | Ty::Unit)) && (small_alphabet(b) || matches!(**b, Ty::U(8) | Ty::Unit)),
-		Ty::Seq { elem, .. } => small_alphabet(elem) || matches!(**elem, Ty::Unit),
+		// (zero-width elements are left out: every 3-byte count up to 16383 would be honoured element by element)
+		Ty::Seq { elem, .. } => small_alphabet(elem) && !elem.zero_width(),
 		Ty::Str => true,
 		Ty::Bits { .. } => true,
-		Ty::Struct { fields, .. } => fields.iter().filter(|f| !f.skip).all(|f| small_alphabet(&f.ty)),
-		Ty::Tuple(ts) => ts.iter().all(small_alphabet),
+		Ty::Struct { fields, .. } => fields.iter().any(|f| !f.skip) && fields.iter().filter(|f| !f.skip).all(|f| small_alphabet(&f.ty)),
+		Ty::Tuple(ts) => !ts.is_empty() && ts.iter().all(small_alphabet),
 		_ => false,
 	}
 }
